@@ -72,6 +72,13 @@ impl Run {
         self.assumptions.push(s.to_string());
     }
     pub fn violation(&mut self, v: Violation) {
+        // disagreements between the model and the reference implementation are failures of the machinery
+        if v.identity.starts_with("MODEL:") {
+            if self.machinery_errors.len() < 10 {
+                self.machinery_error(format!("{}: {}", v.identity, truncate(&v.what, 400)));
+            }
+            return;
+        }
         // de-duplicate on identity: the first (shortest, simplest-first enumeration) is kept
         if self.violations.iter().any(|x| x.identity == v.identity) {
             self.add("duplicate_violations_suppressed", 1);
@@ -85,8 +92,12 @@ impl Run {
         self.violations.len()
     }
     pub fn machinery_error(&mut self, s: String) {
-        eprintln!("MACHINERY-ERROR {}: {}", self.id, s);
-        self.machinery_errors.push(s);
+        if self.machinery_errors.len() < 8 {
+            eprintln!("MACHINERY-ERROR {}: {}", self.id, truncate(&s, 700));
+        }
+        if self.machinery_errors.len() < 40 {
+            self.machinery_errors.push(truncate(&s, 700));
+        }
     }
     pub fn elapsed(&self) -> f64 {
         self.t0.elapsed().as_secs_f64()
@@ -94,6 +105,16 @@ impl Run {
 
     /// Writes evidence, prints verdict lines, returns the process exit code.
     pub fn finish(mut self) -> i32 {
+        // panics that escaped the per-call guards: inside the code under test they are verdicts, inside the
+        // harness they are machinery failures
+        for m in crate::meter::take_escaped() {
+            if m.contains("/ruzstd/src/") || m.contains("/cli/src/") {
+                let loc = m.rsplit(" @ ").next().unwrap_or("").to_string();
+                self.violation(Violation { identity: format!("panic:{loc}"), what: format!("panic in the code under test: {m}"), replay: serde_json::json!({"escaped_panic": m}) });
+            } else {
+                self.machinery_error(format!("panic in the harness: {m}"));
+            }
+        }
         let dir = verif_dir();
         let known = load_known(&dir);
         let mut real = 0;
